@@ -5,6 +5,9 @@
 //!   `then=…`  : operations applied afterwards, one character each:
 //!               `c` clear_signatures, `R`/`E`/`C` sign with that key, `w` write + re-parse
 //! `validfile @path [then=…]` — the same for an existing package file (the repo's rpm-built assets).
+//! `validhand09 <kind> [then=…]` — the same for C10's hand-made start packages (`latin1`, `noncanon`, `swapped`, `extratag`: the
+//!   built2 package with a main header edited by hand) and for `gap` (slack bytes BETWEEN two data items of the store, the region
+//!   trailer still last): `ok start=<hex of the start package> pkg=<…> arch=<…>`; the driver judges the start first.
 //!
 //! Observation: `ok comp=<name> pkg=<hex of Package::write> arch=<hex of the payload decompressed with the
 //! codec crates directly>` | `err`. The driver parses `pkg` with the Lean parser and runs the validator
@@ -123,6 +126,16 @@ pub fn eval(op: &str, a: &[&str]) -> Option<String> {
             Some(match r { Ok(s) => s, Err(_) => "err".into() })
         }
         "validpad" => Some(match a.first().and_then(|x| x.parse().ok()).map(validpad) { Some(Ok(s)) => s, _ => "err".into() }),
+        "validhand09" => {
+            let r = (|| -> Option<String> {
+                let start = hand_start(a[0])?;
+                let pkg = rpm::Package::parse(&mut &start[..]).ok()?;
+                let pkg = apply_ops(pkg, get(a, "then").unwrap_or("")).ok()?;
+                let o = observe(&pkg).ok()?;
+                Some(format!("ok start={} {}", hx(&start), &o[3..]))
+            })();
+            Some(r.unwrap_or_else(|| "err".into()))
+        }
         "validfile" => {
             let r = (|| -> Result<String, rpm::Error> {
                 let bytes = arg_bytes(a[0]);
@@ -135,6 +148,36 @@ pub fn eval(op: &str, a: &[&str]) -> Option<String> {
         _ => None,
     }
 }
+
+/// a hand-made start package of kind `gap`: C10's `latin1` variant of its built2 package (a non-UTF-8 byte in the summary, header
+/// digest re-computed) with, in addition, four zero bytes inserted in front of the data of the LAST non-region entry in store order (every later offset — only the region entry's — moves up by 4, so alignment is kept): a layout
+/// rpm accepts (data in index order, no overlap, the region trailer still the last 16 bytes) that `from_entries` never produces
+fn gap_start() -> Option<Vec<u8>> {
+    let base = crate::c10::variant_start("latin1")?;
+    let (a, b, mut g) = crate::c10::split_main_header(&base)?;
+    let region = g.entries.iter().position(|e| e.tag == 63)?;
+    let last = (0..g.entries.len()).filter(|i| *i != region).max_by_key(|i| g.entries[*i].off)?;
+    let at = g.entries[last].off as usize;
+    for _ in 0..4 { g.store.insert(at, 0); }
+    g.entries[last].off += 4;
+    g.entries[region].off += 4;
+    use sha2::Digest;
+    let old_digest = hex::encode(sha2::Sha256::digest(&base[a..b]));
+    let new_header = g.bytes();
+    let new_digest = hex::encode(sha2::Sha256::digest(&new_header));
+    let pos = base[..a].windows(old_digest.len()).position(|w| w == old_digest.as_bytes())?;
+    let mut out = base[..a].to_vec();
+    out[pos..pos + new_digest.len()].copy_from_slice(new_digest.as_bytes());
+    out.extend(new_header);
+    out.extend_from_slice(&base[b..]);
+    Some(out)
+}
+
+fn hand_start(kind: &str) -> Option<Vec<u8>> {
+    if kind == "gap" { gap_start() } else if crate::c10::VARIANT_KINDS.contains(&kind) { crate::c10::variant_start(kind) } else { None }
+}
+
+const HAND_KINDS: [&str; 5] = ["latin1", "noncanon", "swapped", "extratag", "gap"];
 
 fn asset_packages() -> Vec<String> {
     let mut v = Vec::new();
@@ -187,6 +230,73 @@ fn gen_nobz(ctx: &mut Ctx) {
     }
 }
 
+fn gen_content(ctx: &mut Ctx) {
+    let (si, sn) = ctx.shard;
+    fn h(s: &str) -> String { hx(s.as_bytes()) }
+    let versions = ["1.0", "1.0~rc1", "1.0^git1", "2~a^b"];
+    // (kind, name, flags, version)
+    let deps: [&[(&str, &str, u32, &str)]; 10] = [
+        &[],
+        &[("req", "libfoo", 12, "2.0~beta")],
+        &[("prov", "virt", 8, "3^post1")],
+        &[("obs", "old", 2, "1~~")],
+        &[("req", "(a or b)", 0, "")],
+        &[("rec", "(a if b)", 0, "")],
+        &[("conf", "(x and y)", 0, "")],
+        &[("sup", "(k or (l and m))", 0, ""), ("enh", "e", 8, "1^")],
+        // "(" not in first place, an empty version, a provide named like a rich dependency (rpm looks at provides' VERSIONS only)
+        &[("req", "a(b)", 0, ""), ("prov", "(p or q)", 0, "")],
+        &[("sug", "s", 10, "1.0~"), ("req", "(a unless b)", 0, "")],
+    ];
+    let scripts = ["", "sc=prein:65:~:PROG1", "sc=postun:65:1:PROG3", "sc=verify:65:~:PROG2 sc=pretrans:65:~:PROG1", "sc=posttrans:65:~:-", "sc=preuntrans:65:2:PROG2"];
+    let progs = [("PROG1", vec!["/bin/sh"]), ("PROG2", vec!["/bin/sh", "-e"]), ("PROG3", vec!["/usr/bin/lua", "-x", "a b"])];
+    let comps = ["none", "gzip:6", "zstd:3", "xz:1", "bzip2:9"];
+    let mut k = 0u64;
+    for (vi, v) in versions.iter().enumerate() {
+        for (di, dl) in deps.iter().enumerate() {
+            for (sci, sc) in scripts.iter().enumerate() {
+                // quick: a third of the grid (every combination of two axes still occurs); thorough: all of it
+                if !ctx.thorough && (vi + di + sci) % 3 != 0 && !(vi == 0 || di == 0 || sci == 0) { continue; }
+                for own in [false, true] {
+                    k += 1;
+                    if k % sn != si { continue; }
+                    let mut t: Vec<String> = vec![format!("n={}", h("cf")), format!("v={}", h(v)), format!("l={}", h("MIT")), format!("a={}", h("noarch")),
+                        format!("s={}", h("content features")), "now=1700000000".into(), format!("c={}", comps[(k % 5) as usize])];
+                    if k % 3 == 0 { t.push(format!("r={}", h("0.1~pre"))); }
+                    if k % 4 == 1 { t.push("f=2f6f70742f78:33188:726f6f74:726f6f74:0:~:-:1600000000:4:5:~".into()); }
+                    for (kind, name, flags, ver) in dl.iter() {
+                        t.push(format!("dp={}:{}:{}:{}", kind, h(name), flags, h(ver)));
+                    }
+                    let mut sct = sc.to_string();
+                    for (pn, words) in progs.iter() {
+                        sct = sct.replace(pn, &words.iter().map(|w| h(w)).collect::<Vec<_>>().join(","));
+                    }
+                    if !sct.is_empty() { t.extend(sct.split(' ').map(|x| x.to_string())); }
+                    if own {
+                        // what rpmbuild would add: LESS | EQUAL | RPMLIB
+                        let uses_tilde = v.contains('~') || dl.iter().any(|d| d.3.contains('~'));
+                        let uses_caret = v.contains('^') || dl.iter().any(|d| d.3.contains('^'));
+                        let rich = dl.iter().any(|d| d.0 != "prov" && d.0 != "obs" && d.1.starts_with('('));
+                        let args = sc.contains("PROG2") || sc.contains("PROG3");
+                        if !(uses_tilde || uses_caret || rich || args) { continue; }
+                        let fl = (1u32 << 24) | 8 | 2;
+                        // every other `own` case declares all but the last needed feature: still a violation
+                        let mut need: Vec<(&str, &str)> = Vec::new();
+                        if uses_tilde { need.push(("TildeInVersions", "4.10.0-1")); }
+                        if uses_caret { need.push(("CaretInVersions", "4.15.0-1")); }
+                        if rich { need.push(("RichDependencies", "4.12.0-1")); }
+                        if args { need.push(("ScriptletInterpreterArgs", "4.0.3-1")); }
+                        if k % 4 == 3 && need.len() > 1 { need.pop(); }
+                        for (f, ver) in need { t.push(format!("dp=req:{}:{}:{}", h(&format!("rpmlib({})", f)), fl, h(ver))); }
+                    }
+                    match k % 11 { 3 => t.push("sign=E".into()), 5 => t.push("then=cE".into()), 7 => t.push("sign=R then=wc".into()), _ => {} }
+                    ctx.req(&format!("valid {}", t.join(" ")));
+                }
+            }
+        }
+    }
+}
+
 pub fn gen(ctx: &mut Ctx) {
     if ctx.variant == "nobz" {
         return gen_nobz(ctx);
@@ -217,6 +327,17 @@ pub fn gen(ctx: &mut Ctx) {
             if h.is_empty() { ctx.req(&format!("validfile @{}", p)); } else { ctx.req(&format!("validfile @{} then={}", p, h)); }
         }
     }
+    // 1a. hand-made start packages (C10's four and `gap`), as they are and after sign / clear histories
+    for (ki, kind) in HAND_KINDS.iter().enumerate() {
+        for (hi, h) in ["", "w", "c", "E", "Ec", "cR", "CwE", "Rwcw"].iter().enumerate() {
+            if (ki * 8 + hi) as u64 % sn != si { continue; }
+            if h.is_empty() { ctx.req(&format!("validhand09 {}", kind)); } else { ctx.req(&format!("validhand09 {} then={}", kind, h)); }
+        }
+    }
+    // 1c. the four rpmlib() features rpmbuild derives from the CONTENT of a package: versions and dependency versions with '~' / '^',
+    //     rich dependencies, scriptlet interpreters with arguments — alone, combined, and with the matching requirement written by
+    //     the caller (then nothing is missing); a few of them signed / cleared afterwards
+    gen_content(ctx);
     // 1b. signature blobs of every total length from the bare Ed25519 signature up to beyond a 4 KiB reserved area
     {
         let step = if ctx.thorough { 1 } else { 1 };
